@@ -3,6 +3,7 @@ package main
 import (
 	"fmt"
 	"go/token"
+	"go/types"
 	"sort"
 	"strings"
 
@@ -82,6 +83,13 @@ func (w *World) flowSinks(src ssa.Value) []flowSink {
 				case *ssa.FieldAddr:
 					fr := fieldOfAddr(a)
 					sinks = append(sinks, flowSink{Kind: "field", Name: fr.String(), Pos: x})
+					// an unexported struct type of the module (a small holder such as "the opened logs of a
+					// task"): field-based — the flow goes on at every load of that field in the module
+					if n := namedOf(a.X.Type()); n != nil && n.Obj().Pkg() != nil && w.InModulePkg(n.Obj().Pkg()) && !n.Obj().Exported() {
+						for _, ld := range w.fieldLoads(n, a.Field) {
+							visit(ld)
+						}
+					}
 					// loads of the same field of the same base
 					if base, ok := a.X.(*ssa.Alloc); ok && base.Referrers() != nil {
 						for _, br := range *base.Referrers() {
@@ -199,4 +207,36 @@ func sinkList(m map[string]bool) string {
 	}
 	sort.Strings(s)
 	return strings.Join(s, ", ")
+}
+
+// fieldLoads: every load of field idx of the named struct type n in the module.
+func (w *World) fieldLoads(n *types.Named, idx int) []ssa.Value {
+	k := [2]interface{}{n.Obj(), idx}
+	if w.fieldLoadMemo == nil {
+		w.fieldLoadMemo = map[[2]interface{}][]ssa.Value{}
+	}
+	if v, ok := w.fieldLoadMemo[k]; ok {
+		return v
+	}
+	var out []ssa.Value
+	for _, f := range w.ModFuncs {
+		allInstrs(f, func(in ssa.Instruction) {
+			switch x := in.(type) {
+			case *ssa.FieldAddr:
+				if m := namedOf(x.X.Type()); m != nil && m.Obj() == n.Obj() && x.Field == idx && x.Referrers() != nil {
+					for _, r := range *x.Referrers() {
+						if ld, ok := r.(*ssa.UnOp); ok && ld.Op == token.MUL {
+							out = append(out, ld)
+						}
+					}
+				}
+			case *ssa.Field:
+				if m := namedOf(x.X.Type()); m != nil && m.Obj() == n.Obj() && x.Field == idx {
+					out = append(out, x)
+				}
+			}
+		})
+	}
+	w.fieldLoadMemo[k] = out
+	return out
 }
